@@ -248,26 +248,20 @@ func (c14) Exec(cc core.Case, r *core.Rec) []core.Failure {
 			r.NonTrivial()
 		}
 		r.Outcome(fmt.Sprintf("%s/%v/learnedpb=%d/confl=%d/restarts=%d/del=%d", c.Mode, o.res.Status, min3(len(evts)), min3(o.stats.NbConflicts), min3(o.stats.NbRestarts), min3(o.stats.NbDeleted)))
-		fs := judgeOptim(entry+"/cp", c, o, models)
-		if len(fs) > 0 {
+		var fs []core.Failure
+		add := func(kind, detail string) { fs = append(fs, core.Failure{Sig: entry + "/cp/" + kind, Detail: detail}) }
+		if o.panicked != "" {
+			// root-cause signature: where the panic was raised and with what message (no front end / mode)
+			fs = append(fs, core.Failure{Sig: "cp/panic@" + lastPanicSite + ":" + o.panicked, Detail: o.panicked})
 			return fs
 		}
-		add := func(kind, detail string) { fs = append(fs, core.Failure{Sig: entry + "/cp/" + kind, Detail: detail}) }
-		// differential with the strategy off
-		if offObs.panicked == "" && !offObs.aborted && offObs.buildPanic == "" {
-			if offObs.res.Status != o.res.Status {
-				add("verdict-differs-from-strategy-off", fmt.Sprintf("off: %v, on: %v", offObs.res.Status, o.res.Status))
-			} else if o.res.Status == solver.Sat && offObs.res.Weight != o.res.Weight {
-				add("optimum-differs-from-strategy-off", fmt.Sprintf("off: %d, on: %d", offObs.res.Weight, o.res.Weight))
-			}
-		}
-		// every learned constraint / unit is a consequence of the premises in force
+		// 1. the learner's events, in order: the first unsound one is the root cause
 		for i, e := range evts {
 			prem := underBound(e.bound)
 			if e.lvl == -1 {
 				if !prem.IsEmpty() {
-					add("learned-false-constraint-on-satisfiable", fmt.Sprintf("event %d: cutting planes derived a contradiction although the premises (cost bound %d) have a model", i, e.bound))
-					break
+					fs = append(fs, core.Failure{Sig: "cp/learner-derived-contradiction-on-satisfiable-premises", Detail: fmt.Sprintf("event %d: cutting planes derived a contradiction although the premises (cost bound %d) have a model", i, e.bound)})
+					return fs
 				}
 				continue
 			}
@@ -282,7 +276,20 @@ func (c14) Exec(cc core.Case, r *core.Rec) []core.Failure {
 			}
 			if e.c != nil && !tt.Implied(prem, *e.c) {
 				add("learned-constraint-not-implied", fmt.Sprintf("event %d: %v is not a consequence of the problem (cost bound %d)", i, *e.c, e.bound))
-				break
+				return fs
+			}
+		}
+		// 2. verdict, model, optimum against the truth table
+		fs = judgeOptim(entry+"/cp", c, o, models)
+		if len(fs) > 0 {
+			return fs
+		}
+		// differential with the strategy off
+		if offObs.panicked == "" && !offObs.aborted && offObs.buildPanic == "" {
+			if offObs.res.Status != o.res.Status {
+				add("verdict-differs-from-strategy-off", fmt.Sprintf("off: %v, on: %v", offObs.res.Status, o.res.Status))
+			} else if o.res.Status == solver.Sat && offObs.res.Weight != o.res.Weight {
+				add("optimum-differs-from-strategy-off", fmt.Sprintf("off: %d, on: %d", offObs.res.Weight, o.res.Weight))
 			}
 		}
 		return fs
